@@ -226,6 +226,8 @@ func check(c Case) error {
 		o.Label(len(snaps)-1 >= 3, ">=3-intermediate-renders")
 		o.Label(act > 0, "render-overlapping-active-reader")
 		o.Label(pc.ViaReader, "reader-path")
+		o.Label(len(pc.Missing) > 0, "unopenable-inputs")
+		o.Label(len(pc.Missing) > 0 && len(pc.Missing) >= pc.Readers, "unopenable>=reader-slots")
 		o.Label(strings.Contains(pc.Extract, "@") || strings.Contains(pc.Extract, "{!") || strings.Contains(pc.Extract, "time"), "shared-state-expression")
 	}
 	return nil
@@ -392,7 +394,19 @@ func checkCLI(cc CLICase) error {
 	case "dissect":
 		args = append(args, "-d", c.Matcher.Pattern)
 	}
-	args = append(args, files...)
+	for i, f := range files {
+		for k, m := range c.Missing {
+			if m == i {
+				args = append(args, filepath.Join(dir, fmt.Sprintf("cli-missing-%d-%d.log", i, k)))
+			}
+		}
+		args = append(args, f)
+	}
+	for k, m := range c.Missing {
+		if m >= len(files) {
+			args = append(args, filepath.Join(dir, fmt.Sprintf("cli-missing-%d-%d.log", m, k)))
+		}
+	}
 	cmd := exec.Command(bin, args...)
 	cmd.Env = append(os.Environ(), "GOMAXPROCS="+strconv.Itoa(c.Procs), "GORACE=halt_on_error=1 exitcode=66")
 	var stdout, stderr bytes.Buffer
